@@ -525,3 +525,33 @@ CHECKS["C07"] = dict(
     level_text="All operation histories up to the depth bound from each seed are executed on the real incremental evaluator and compared with a from-scratch evaluation; symmetry is checked on complete small universes; all SIMD variants are compared on one stream.",
     level_note="Trusted: the reference evaluator configuration (full refresh + emptied cache entry); kernels are compared end-to-end, not per intrinsic.",
 )
+
+# ------------------------------------------------------------------------------------------ C16
+def c16_parts(tier, seed):
+    T = "c16_proofgame"
+    q = tier == "quick"
+    return [
+        P("filter-tree", T, "fast", ["--part", "filter", "--plies", 4 if q else 5], require=["states"], deadline_frac=0.95),
+        P("filter-corpus", T, "fast", ["--part", "filter", "--plies", 0, "--games", 200 if q else 3000, "--every", 5], require=["states"], deadline_frac=0.95),
+        P("bound-tree", T, "fast", ["--part", "bound", "--plies", 4 if q else 5], require=["nontrivial"], deadline_frac=0.95),
+        P("bound-corpus", T, "fast", ["--part", "bound", "--games", 3000 if q else 20000], require=["nontrivial", "pairs_with_castling", "pairs_with_ep"], deadline_frac=0.95),
+        P("iterated", T, "fast", ["--part", "iter", "--plies", 2, "--games", 32 if q else 200], require=["proof_games"], deadline_frac=0.95),
+        P("filter-asan", T, "seq", ["--part", "filter", "--plies", 2 if q else 3, "--games", 16, "--every", 8], require=["states"], deadline_frac=0.95),
+    ]
+
+CHECKS["C16"] = dict(
+    parts=c16_parts,
+    rule="states = positions classified by the filter (distinct by placement/side/rights/en-passant) resp. (ancestor, descendant) pairs whose bound was evaluated; transitions = path:/proof: "
+         "sequences replayed resp. bounds compared; non-trivial = a proof game was produced / the remaining path contains a capture or a pawn move other than a single push",
+    alphabet="every distinct position within k plies of the initial position; positions at every 4th ply of a fixed corpus of N legal games (deterministic LCG walks of <= 150 plies in five fixed styles (uniform, capture/pawn biased, quiet manoeuvring, pawn storm by either side) from the "
+             "initial position with >= 26 men, biased every third move towards captures, pawn moves and castling); filterFens (static rules, distance heuristic, last-move analysis, proof kernel, "
+             "extended kernel) and filterFensIterated (path + proof game search); bounds for every pair i < j on every line of the depth-k tree and of every corpus game",
+    oracle="no reachable position gets 'illegal:'; every path:/proof: sequence is legal from the initial position per the independent oracle and a proof: ends exactly in the goal "
+           "(placement, side, rights, en-passant); distLowerBound(P_i -> P_j) <= j - i",
+    bound=dict(quick="k = 4 (101k positions, 986k pairs), 200 corpus games for the filter, 3000 for the bound", thorough="k = 5, 3000 / 20000 corpus games"),
+    assumptions=["positions deep in a game are reached only through the fixed corpus (a fixed driver, not a run-time sample); its reach is limited",
+                 "bound violations on paths containing castling or an en-passant capture are the two known findings (heuristic's relaxed model); all others are violations"],
+    technique="bounded-exhaustive enumeration of all positions / game prefixes to a ply bound plus all prefix-suffix pairs of a fixed game corpus on the real proof-game code, independent replay oracle",
+    level_text="Every position within the ply bound and every (ancestor, descendant) pair is pushed through the real filter and heuristic; verdicts and move sequences are judged by an independent oracle.",
+    level_note="Trusted: the oracle's SAN writer for replaying emitted sequences; games longer than 80 plies and positions with < 26 men are not covered.",
+)
